@@ -9,4 +9,4 @@ Open Scope N_scope.
 (* ---- /repo/src/io_loop/channel_handle.rs :: Channel0Handle.new ---- *)
 (* parameters (the fields the function reads, sorted):  *)
 Definition gen_Channel0Handle_new (frame_max : N) : rs_result :=
-  (let frame_max := (if (frame_max =? 0) then 18446744073709551615 else frame_max) in (RsOk "Channel0Handle" [("frame_max", frame_max)])).
+  (let frame_max := (if (frame_max =? 0) then 18446744073709551615 else frame_max) in (let frame_max := (frame_max - c_frame_overhead) in (RsOk "Channel0Handle" [("frame_max", frame_max)]))).
